@@ -225,7 +225,19 @@ class BackupOrder:
             if fs == "copy2" and len(call.args) == 2:
                 dst = src(call.args[1])
                 srcx = src(call.args[0])
-                if dst in self.names and self.names[dst] == srcx:
+                altering = [k for k in call.keywords
+                            if not (k.arg == "follow_symlinks" and
+                                    isinstance(k.value, ast.Constant) and
+                                    k.value.value is True)]
+                if dst in self.names and self.names[dst] == srcx and \
+                        altering:
+                    self._bad(call, "the backup copy is taken with `{}`: "
+                              "what lands in the '.bak' is no longer a copy "
+                              "of the target's bytes (a link to the same "
+                              "file shares the edit)".format(
+                                  ", ".join(src(k) if hasattr(ast, "unparse")
+                                            else k.arg for k in altering)))
+                elif dst in self.names and self.names[dst] == srcx:
                     copied = True
                     self.copies.append(call)
                 else:
@@ -669,3 +681,9 @@ def run(chk: Check) -> None:
     d4_restore(chk, model)
     d5_fault_points(chk, model)
     d6_rotate(chk, model)
+    # "unreadable input: non-zero status, file unchanged": a failed load
+    # must not be mistaken for an empty document that is then written out
+    from rules.c16 import d8_loaded_documents
+    funcs = [f for f in chk.prog.functions.values()
+             if f.module.relpath in (SET, MERGE, ROTATE)]
+    d8_loaded_documents(chk, funcs, "C17-D7", 3)
